@@ -27,7 +27,7 @@ type c14Case struct {
 func init() {
 	engine.Register(&engine.Check{
 		ID: "C14", Level: "exploration",
-		Rule:        "point sets of 1..4 points on the 4x4 grid; polylines of 2..4 vertices (repeated points allowed) and pairs of them; every SIMPLE ring (simplicity decided exactly) of 3..5 (thorough 6) vertices on the 4x4 grid in both directions and from every start vertex; polygons = every axis-parallel rectangle and lattice triangle on the 6x6 grid (thorough 8x8) as shell x lattice triangles / unit squares strictly inside as holes (<=1 quick, <=2 thorough), rings in every direction combination; multipolygons = pairs of disjoint polygons; zero-area polygons for the length-weighted fallback; offsets {0,1e5,2^30}; layouts with extra ordinates. Oracle: rational mean / length-weighted (256-bit sqrt) / area-weighted centroid within a forward error bound; IsRingCounterClockwise <=> exact signed area > 0; SignedArea = -(exact ccw area). distinct_nontrivial = distinct inputs with non-zero length or area Also: point sets and polylines with every count 1..70 and counts around powers of two, 4096/3 and 8192/3 up to 8193 (thorough 65537) in all four layouts.",
+		Rule:        "point sets of 1..4 points on the 4x4 grid; polylines of 2..4 vertices (repeated points allowed) and pairs of them; every SIMPLE ring (simplicity decided exactly) of 3..5 (thorough 6) vertices on the 4x4 grid in both directions and from every start vertex; polygons = every axis-parallel rectangle and lattice triangle on the 6x6 grid (thorough 8x8) as shell x lattice triangles / unit squares strictly inside as holes (<=1 quick, <=2 thorough), rings in every direction combination; multipolygons = pairs and triples of disjoint polygons, also handed to PolygonsCentroid as the member views of one multipolygon in every order (storage must stay bit-identical); zero-area polygons for the length-weighted fallback; offsets {0,1e5,2^30}; layouts with extra ordinates. Oracle: rational mean / length-weighted (256-bit sqrt) / area-weighted centroid within a forward error bound; IsRingCounterClockwise <=> exact signed area > 0; SignedArea = -(exact ccw area). distinct_nontrivial = distinct inputs with non-zero length or area Also: point sets and polylines with every count 1..70 and counts around powers of two, 4096/3 and 8192/3 up to 8193 (thorough 65537) in all four layouts.",
 		Run:         c14Run,
 		Replay:      func(c *engine.Ctx, kind string, raw json.RawMessage) { c14Exec(c, decodeCase[c14Case](raw)) },
 		Assumptions: []string{"valid polygons only (simple rings, holes strictly inside, disjoint members); polylines of non-zero total length"},
@@ -267,6 +267,50 @@ func c14Exec(c *engine.Ctx, cs c14Case) {
 		}
 		if !checkXY(tag+"/polygons", g1, wx, wy, tol) || !checkXY(tag+"/multipolygon", g2, wx, wy, tol) || !checkXY(tag+"/centroid", g3, wx, wy, tol) {
 			return
+		}
+		// the members of ONE multipolygon (views of its storage, each with the others' coordinates in
+		// its spare capacity) handed to PolygonsCentroid in every order: same centroid, and the
+		// multipolygon's storage is the caller's - it must be bit-identical afterwards
+		// (only inside the quantifier's grid extent of 10^5: beyond it the answer of the fan-of-
+		// triangles algorithm legitimately depends on which member supplies the base point)
+		ext := 0.0
+		for _, r := range cs.Rings {
+			for i := range r {
+				for j := range cs.Rings[0] {
+					if i%2 == j%2 {
+						ext = math.Max(ext, math.Abs(float64(r[i])-float64(cs.Rings[0][j])))
+					}
+				}
+			}
+		}
+		if len(polys) >= 2 && len(polys) <= 3 && ext <= 1e5 {
+			mp := geom.NewMultiPolygonFlat(l, append([]float64{}, mpFlat...), endss)
+			before := append([]float64{}, mp.FlatCoords()...)
+			perms := [][]int{{0, 1}, {1, 0}}
+			if len(polys) == 3 {
+				perms = [][]int{{0, 1, 2}, {0, 2, 1}, {1, 0, 2}, {1, 2, 0}, {2, 0, 1}, {2, 1, 0}}
+			}
+			for _, pm := range perms {
+				var gv geom.Coord
+				if pn, _ := engine.Guard(func() {
+					views := make([]*geom.Polygon, len(pm))
+					for i, k := range pm {
+						views[i] = mp.Polygon(k)
+					}
+					gv = xy.PolygonsCentroid(views[0], views[1:]...)
+				}); pn != nil {
+					fail("views-panic", fmt.Sprintf("PolygonsCentroid on member views %v panicked: %v", pm, pn))
+					return
+				}
+				if !eqBits(mp.FlatCoords(), before) {
+					fail("views-input-modified", fmt.Sprintf("PolygonsCentroid(mp.Polygon(i) in order %v) changed the multipolygon's coordinates", pm))
+					return
+				}
+				if !checkXY(fmt.Sprintf("%s/member-views", tag), gv, wx, wy, tol) {
+					return
+				}
+				c.Count("member_view_orders", 1)
+			}
 		}
 		if zeroArea {
 			c.Count("zero_area_fallbacks", 1)
@@ -535,6 +579,11 @@ func c14Run(c *engine.Ctx) {
 			rs = append(rs, ringF(rot(shifted, 1%len(shifted), !srev), off))
 			counts = append(counts, 1)
 			c14Exec(c, c14Case{Mode: "polygons", Layout: l, Rings: rs, Counts: counts})
+			// and a third member: a lattice triangle further right
+			far := float64(2*n + 3)
+			tri := []ref.P2{{X: far, Y: 0}, {X: far + 2, Y: 1}, {X: far + 1, Y: 3}}
+			rs3 := append(append([][]ref.F{}, rs...), ringF(rot(tri, 0, srev), off))
+			c14Exec(c, c14Case{Mode: "polygons", Layout: l, Rings: rs3, Counts: append(append([]int{}, counts...), 1)})
 		}
 	})
 	// zero-area polygons: collinear rings (need >= 3 distinct points for the direction test)
